@@ -31,6 +31,8 @@ CFGV = [
     # provider-wide rules whose authorization_code rule lacks refresh_token (the OIDC token helper wants to add it) and max_usage
     {"usage_rules": "norefresh", "c1_rules": None, "revocation": None},
     {"usage_rules": "norefresh", "c1_rules": "partial", "revocation": None},
+    # resource indicators: a policy with empty kwargs on the authorization endpoint, a per-client entry without policy
+    {"usage_rules": True, "c1_rules": None, "revocation": None, "ri": True},
 ]
 STATS = {"requests": 0, "static_roots": 0, "aliases": {}}
 
@@ -54,6 +56,10 @@ def make_runner(v, oidc=True, jwt=False):
                                                     "access_token": {"expires_in": 600}, "refresh_token": {"supports_minting": ["access_token"]}}
     if cfg["revocation"] == "c1-access-only":
         ctx.cdb["client_1"]["token_revocation"] = {"token_types_supported": ["access_token"]}
+    if cfg.get("ri"):
+        from idpyoidc.server.oauth2.authorization import validate_resource_indicators_policy
+        R.s.get_endpoint("authorization").resource_indicators_config = {"policy": {"function": validate_resource_indicators_policy, "kwargs": {}}}
+        ctx.cdb["client_3"]["resource_indicators"] = {"authorization_code": {}}
     ctx.cdb["client_2"]["add_claims"] = {"always": {"userinfo": ["nickname"]}, "by_scope": {"id_token": True}}
     ctx.cdb["client_3"]["userinfo"] = {"policy": {"function": "idpyoidc.server.oidc.userinfo.validate_userinfo_policy", "kwargs": {}}}
     return R
@@ -220,12 +226,42 @@ def impl(c):
 
     # the history is generated against the live provider (handles are real), snapshots are taken after every request
     ops, _ = prov.gen_adaptive(rng, c["n"], c["oidc"], c["jwt"], weights={"revokeEp": 12, "userinfo": 12}, runner=R, on_step=after)
+    if CFGV[c["v"]].get("ri"):
+        # authorization requests with a resource parameter, by each client in turn
+        for i, cl in enumerate(["client_1", "client_2", "client_3", "client_2"]):
+            r = _resource_request(R, cl)
+            after(len(ops) + i, ["authorize+resource", cl], r, R)
     for a in al:
         STATS["aliases"][a] = STATS["aliases"].get(a, 0) + 1
     aged_probe = _probe_outcomes(R)
     # history freedom at the endpoint level: the same revocation request by client_2 for a refresh token on the aged vs a fresh provider
     return {"nops": len(ops), "changes": changes, "aliases": sorted(al), "probe_equal": aged_probe == fresh_probe,
-            "probe_diff": [a for a, b in zip(aged_probe, fresh_probe) if a != b][:2], "hist": _revocation_history_probe(c)}
+            "probe_diff": [a for a, b in zip(aged_probe, fresh_probe) if a != b][:2], "hist": _revocation_history_probe(c), "hist_ri": _resource_history_probe(c)}
+
+
+def _resource_request(R, cl):
+    from idpyoidc.message.oidc import AuthorizationRequest
+    ep = R.s.get_endpoint("authorization")
+    req = AuthorizationRequest(client_id=cl, redirect_uri=f"https://{cl}.example.com/cb", scope=["openid"], state="st", response_type="code", nonce="n",
+                               resource=[cl])
+    try:
+        pr = ep.parse_request(req.to_dict())
+        return ["err", pr["error"], pr.get("error_description")] if "error" in pr else ["ok"]
+    except Exception as e:
+        return ["exc", type(e).__name__]
+
+
+def _resource_history_probe(c):
+    """client_2 asks for a resource: on a fresh provider, and on one where client_1 asked just before"""
+    if not CFGV[c["v"]].get("ri"):
+        return []
+    res = []
+    for aged in (False, True):
+        R = make_runner(c["v"], True, False)
+        if aged:
+            _resource_request(R, "client_1")
+        res.append(_resource_request(R, "client_2"))
+    return res
 
 
 def _revocation_history_probe(c):
@@ -336,6 +372,8 @@ def oracle(c, obs):
                   "before": ch["before"], "after": ch["after"]})
     if not obs["probe_equal"]:
         v.append({"cls": "configuration-answer-depends-on-history", "diff": obs["probe_diff"]})
+    if len(obs.get("hist_ri", [])) == 2 and obs["hist_ri"][0] != obs["hist_ri"][1]:
+        v.append({"cls": "resource-request-outcome-depends-on-earlier-request", "fresh": obs["hist_ri"][0], "aged": obs["hist_ri"][1]})
     if len(obs["hist"]) == 2 and obs["hist"][0] != obs["hist"][1]:
         v.append({"cls": "revocation-outcome-depends-on-earlier-request", "fresh": obs["hist"][0], "aged": obs["hist"][1]})
     return v[:3]
